@@ -641,9 +641,17 @@ func (txn *Txn) commitPrecheck() error {
 		return errors.New("Trying to commit a discarded txn")
 	}
 	keepTogether := true
+	unversioned := false // an entry that takes its version from the commit timestamp
 	for _, e := range txn.pendingWrites {
 		if e.version != 0 {
 			keepTogether = false
+		} else {
+			unversioned = true
+		}
+	}
+	for _, e := range txn.duplicateWrites {
+		if e.version == 0 {
+			unversioned = true
 		}
 	}
 
@@ -652,7 +660,10 @@ func (txn *Txn) commitPrecheck() error {
 	// someone uses txn.Commit instead of txn.CommitAt in managed mode.  This
 	// should happen only in managed mode. In normal mode, keepTogether will
 	// always be true.
-	if keepTogether && txn.db.opt.managedTxns && txn.commitTs == 0 {
+	// The same holds for a single entry without a version next to entries that carry one (Set or
+	// Delete in a NewManagedWriteBatch): it would be written at version zero, where no read can
+	// ever find it.
+	if (keepTogether || unversioned) && txn.db.opt.managedTxns && txn.commitTs == 0 {
 		return errors.New("CommitTs cannot be zero. Please use commitAt instead")
 	}
 	return nil
